@@ -142,7 +142,7 @@ def run_stage(ctx, st, exe, extra_args=None, nproc_override=None):
     args = list(tierval(st.args, ctx.tier) or [])
     env = dict(os.environ)
     env.update(RUN_ENV)
-    env.update(st.env)
+    env.update({k: v.replace('{bdir}', bdir) for k, v in st.env.items()})
     running = []
     pending = list(range(nproc))
     results, problems = [], []
@@ -484,3 +484,49 @@ def main(argv, props):
         print('unknown property', a.id)
         return 2
     return do_check(props[a.id], a.tier, seed, a.repo, a.replay)
+
+
+# ---------------------------------------------------------------- ThreadSanitizer log post-processing
+import glob
+import re
+
+_FRAME = re.compile(r'#\d+ (\S+) (\S+?):(\d+)')
+
+
+def tsan_post(ctx, st, res, bdir, problems):
+    """Collect genuine ThreadSanitizer reports written to {bdir}/tsan.* and turn each distinct one into a violation.
+    Reports are de-duplicated by the pair of innermost librfn frames (function names), per DESIGN 2.2 (E3)."""
+    reports = {}
+    nblocks = 0
+    for path in sorted(glob.glob(os.path.join(bdir, 'tsan.*'))):
+        text = open(path, errors='replace').read()
+        for block in text.split('==================')[0:]:
+            m = re.search(r'WARNING: ThreadSanitizer: ([^\n(]+)', block)
+            if not m:
+                continue
+            nblocks += 1
+            kind = m.group(1).strip().replace(' ', '-')
+            # stacks are separated by blank lines; take the innermost librfn frame of each stack
+            funcs = []
+            for stack in re.split(r'\n\s*\n', block):
+                for fm in _FRAME.finditer(stack):
+                    fn, f, line = fm.group(1), fm.group(2), fm.group(3)
+                    if '/librfn/' in f or '/include/librfn' in f:
+                        funcs.append('%s(%s)' % (fn, os.path.basename(f)))
+                        break
+            if not funcs:
+                # the racing accesses are in the harness (payload handed over through librfn): name those frames
+                for stack in re.split(r'\n\s*\n', block):
+                    fm = re.search(r'#0 (\S+) (\S+?):(\d+)', stack)
+                    if fm and 'harness' in fm.group(2):
+                        funcs.append('payload-access-in-%s' % fm.group(1))
+            funcs = sorted(set(funcs))[:3] or ['(no librfn frame)']
+            key = 'tsan:%s:%s' % (kind, '+'.join(funcs))
+            if key not in reports:
+                reports[key] = block.strip()[:1800]
+    viols = [{'key': k, 'replay': ' '.join(tierval(st.args, ctx.tier) or []),
+              'detail': 'ThreadSanitizer report (first of its kind):\n' + v} for k, v in sorted(reports.items())]
+    res.append({'stage': st.name, 'proc': None, 'evaluations': 0, 'stats': {'tsan_report_blocks': [nblocks, 0],
+                                                                             'tsan_distinct_reports': [len(reports), 0]},
+                'samples': [], 'violations': viols, 'violations_total': len(viols), 'exhaustive': False, 'note': '',
+                '_log': None, '_sig': None})
